@@ -124,11 +124,42 @@ def handleDbo (o : Op) : String :=
     | none => "bad-op"
   | _, _ => "bad-op"
 
+/-- `wait path=get|post trig=cancel|deadline|none at=before|during dur=<ms> status=503|429|bn`:
+    a retriable reply, then the context is cancelled (or its deadline passes) while the client waits for
+    its retry timer of `dur` ms. By `cancel_during_wait` the loop ends at once with the error of the last
+    reply; only an undisturbed wait lasts `dur` (bucket `slow` from 1.5 s). -/
+def handleWait (o : Op) : String :=
+  match o.get? "path", o.get? "trig", o.get? "at", o.nat? "dur", o.get? "status" with
+  | some path, some trig, some at_, some dur, some status =>
+    let bad : Option Resp :=
+      if status == "503" then some ⟨503, "", [], ""⟩
+      else if status == "429" then some ⟨429, "urn:ietf:params:acme:error:rateLimited", [], ""⟩
+      else if status == "bn" then some ⟨400, "urn:ietf:params:acme:error:badNonce", ["nb"], ""⟩
+      else none
+    match bad with
+    | none => "bad-op"
+    | some bad =>
+      let armed := trig != "none"
+      let cfg : Cfg := ⟨true, 5, if armed && at_ == "during" then 1 else 0, fun _ => 0⟩
+      let (script, calls) : List Reply × List String :=
+        if path == "get" then ([.resp { bad with replayNonce := [] }, .resp ⟨200, "", ["n1"], ""⟩], ["D"])
+        else ([.resp ⟨200, "", ["n1"], ""⟩, .resp bad, .resp ⟨200, "", ["n3"], ""⟩, .resp ⟨200, "", ["n4"], ""⟩], ["D", "R"])
+      let st : St := { pool := [], script := script, log := [], kid := true, cancelled := armed && at_ == "before" }
+      match calls.mapM call? with
+      | none => "bad-op"
+      | some cs =>
+        let (_, outs) := runCalls cfg st cs
+        let last := (outs.zip calls).getLast?.map (fun (x, n) => showOutcome n x) |>.getD "-"
+        let slow := !armed && dur ≥ 1500
+        s!"res={last} within={if slow then "slow" else "fast"}"
+  | _, _, _, _, _ => "bad-op"
+
 def handle (line : String) : String :=
   let o := parseOp line
   if o.cmd == "http" then handleHttp o
   else if o.cmd == "pool" then handlePool o
   else if o.cmd == "dbo" then handleDbo o
+  else if o.cmd == "wait" then handleWait o
   else "bad-op"
 
 end XC.C50
